@@ -41,10 +41,11 @@ def clause_of(text):
 PLANS = [["bbox", "get_components!", "bbox"], ["bbox", "remove_points", "bbox"], ["get_components!", "bbox", "get_components!", "bbox"], ["bbox", "bbox"],
          ["bbox", "to_torch", "get_components!"], ["interpolate", "to_torch", "get_components"], ["interpolate", "bbox", "remove_points"], ["focus", "bbox", "flip", "interpolate"],
          ["normalize", "bbox", "get_components!", "bbox"], ["remove_components", "bbox", "interpolate"], ["get_components!", "interpolate", "bbox", "zero_filled"],
-         ["bbox", "interpolate", "get_components!", "bbox"], ["slice_step", "interpolate", "slice_step"], ["to_torch", "get_components!", "remove_points"]]
+         ["bbox", "interpolate", "get_components!", "bbox"], ["slice_step", "interpolate", "slice_step"], ["to_torch", "get_components!", "remove_points"],
+         ["focus", "flip", "focus"], ["focus", "flip", "focus", "bbox"], ["focus", "focus"]]      # a second focus finds the smallest coordinate already at 0 on some axes only
 
 
-READ_PLANS = [["focus"], ["focus", "bbox"], ["copy", "focus"], ["normalize_distribution", "focus"], ["focus", "get_components!"], ["flip", "focus", "interpolate"]]
+READ_PLANS = [["focus"], ["focus", "bbox"], ["copy", "focus"], ["normalize_distribution", "focus"], ["focus", "get_components!"], ["flip", "focus", "interpolate"], ["focus", "flip", "focus"]]
 
 
 def run(ctx):
@@ -55,6 +56,8 @@ def run(ctx):
         if case["body"]["frames"] < 2 and rng.random() < 0.7:
             continue
         start = rng.choice(["numpy"] * 6 + ["torch", "tf"])
+        if rng.random() < 0.15:
+            case["header"] = dict(case["header"], version=rng.choice([pc.V01, 0, 0x3F800000]))     # a pose that came from a legacy file (or a fixture) carries that version; what is written is v0.2
         if start == "numpy" and rng.random() < 0.2:
             case["masked_input"] = rng.choice(["none", "partial"])      # the constructor is handed a MaskedArray with no / a partial mask of its own (fake_pose, user code)
         allow_tf = start == "tf" or rng.random() < 0.15
